@@ -192,8 +192,18 @@ def case_multi(W, cfg):
         return grid.apply_as_grid_ufunc(upwind_and_sum, x, axis=[("X", "Z")], signature="(X:center,Z:center)->(X:left,Z:center)",
                                         boundary_width={"X": (1, 0)}, **kw)
 
+    def ufunc2both(x, **kw):
+        # padded along both core axes
+        def f(y):
+            d = y[..., 1:, :-1] - y[..., :-1, 1:]
+            return d
+        return grid.apply_as_grid_ufunc(f, x, axis=[("X", "Z")], signature="(X:center,Z:center)->(X:left,Z:center)",
+                                        boundary_width={"X": (1, 0), "Z": (0, 1)}, **kw)
+
     for ct in compositions(2):
         lz2 = dasked(da, {"t": ct, "xc": cfg["cx"], "zc": [2]})
+        if len(cfg["cx"]) == 1:
+            compare(W, "multi:ufunc-2-core-dims-both-padded:parallelized", lambda x: ufunc2both(x, dask=("parallelized" if hasattr(x.data, "dask") else "forbidden")), (da,), (lz2,))
         if len(cfg["cx"]) == 1:
             compare(W, "multi:ufunc-2-core-dims:parallelized", lambda x: ufunc2(x, dask=("parallelized" if hasattr(x.data, "dask") else "forbidden")), (da,), (lz2,))
         compare(W, "multi:ufunc-2-core-dims:map_overlap", lambda x: ufunc2(x, dask=("allowed" if hasattr(x.data, "dask") else "forbidden"), map_overlap=hasattr(x.data, "dask")), (da,), (lz2,))
@@ -290,11 +300,11 @@ class _Axis:
 
 
 class _Grid:
-    axes = {"X": _Axis("x")}
+    axes = {"X": _Axis("x"), "Y": _Axis("y")}
 
 
 class _DA:
-    dims = ("x",)
+    dims = ("x", "y")
 
 
 def case_chunks(W, cfg):
@@ -311,7 +321,12 @@ def case_chunks(W, cfg):
     else:
         cs = [W.integer("c%d" % i, 1, 9) for i in range(k)]
         lo, hi = W.integer("lo", 0, 4), W.integer("hi", 0, 4)
-    new = _get_chunk_pattern_for_merging_boundary(_Grid(), _DA(), {"x": tuple(cs)}, {"X": (lo, hi)})
+    # two padded dimensions: each must get its own pattern
+    new = _get_chunk_pattern_for_merging_boundary(_Grid(), _DA(), {"x": tuple(cs), "y": (5, 7)}, {"X": (lo, hi), "Y": (2, 1)})
+    W.require("chunks:every-padded-dim-has-a-pattern", set(new) == {"x", "y"} and tuple(int(v) if not isinstance(v, SInt) else v for v in new.get("y", ())) == (7, 8),
+              "patterns for %s; y -> %s" % (sorted(new), new.get("y")))
+    if "x" not in new:
+        return
     got = new["x"]
     W.require("chunks:same-number", len(got) == k, "%d chunks for %d" % (len(got), k))
     if len(got) != k:
